@@ -30,6 +30,10 @@ type ProgStep struct {
 	Multiset bool `json:"multiset,omitempty"`
 	// NoCompare: the step only prepares state; its outcome is not compared
 	NoCompare bool `json:"no_compare,omitempty"`
+	// Norm: normalisation applied to the answer terms of both sides before comparison.
+	// "callvar": call(V) with V an unbound variable is the same as V (ISO converts a variable
+	// body goal to call(V); the property only asks for a variant of the clause that was given).
+	Norm string `json:"norm,omitempty"`
 }
 
 // Consult builds a consult step from clause terms.
@@ -113,6 +117,7 @@ func RunProgOn(im *Impl, pc *ProgCase) (results []StepResult, firstDiff int, inc
 	}
 	db := ref.NewDB()
 	world := ref.NewWorld(db, budget)
+	world.RetractSkipsErased = RetractPolicy() == "skip"
 	for i := range pc.Steps {
 		st := &pc.Steps[i]
 		var r StepResult
@@ -259,7 +264,14 @@ func RunProgOn(im *Impl, pc *ProgCase) (results []StepResult, firstDiff int, inc
 				results = append(results, r)
 				return // later steps would start from an unknown state
 			}
-			r.Impl = im.Query(st.Text, names, implMax)
+			if st.Norm != "" {
+				var ians [][]ref.Term
+				r.Impl, ians = im.QueryTerms(st.Text, names, implMax)
+				r.Impl.Answers = normAnswers(ians, st.Norm)
+				r.RefAns = normAnswers(rr.Answers, st.Norm)
+			} else {
+				r.Impl = im.Query(st.Text, names, implMax)
+			}
 			r.Verdict, r.Why = compareStep(&r, st, implMax)
 			if r.RefState == "budget" {
 				// the database state after an aborted reference run is unknown
@@ -374,4 +386,56 @@ func (pc *ProgCase) Describe() string {
 		}
 	}
 	return strings.TrimSpace(sb.String())
+}
+
+var retractPolicy string
+
+// RetractPolicy resolves a don't-care of the property by observing the implementation once per
+// process: whether retract/1, on backtracking, succeeds again for a clause of its call-time
+// snapshot that another goal has removed meanwhile ("succeed", the literal ISO 8.9.3.4 example)
+// or skips it ("skip"). Anything else (error, other answers) selects the ISO reading.
+func RetractPolicy() string {
+	if retractPolicy != "" {
+		return retractPolicy
+	}
+	retractPolicy = "succeed"
+	im := NewImpl()
+	if o := im.Exec(":- dynamic(i/1).\ni(ant).\ni(bee).\n"); o.Status != "ok" {
+		return retractPolicy
+	}
+	o := im.Query("findall(I, (retract(i(I)), once((retract(i(bee)) ; true))), L).", []string{"L"}, 2)
+	if o.Status == "exhausted" && len(o.Answers) == 1 && o.Answers[0] == "['ant']" {
+		retractPolicy = "skip"
+	}
+	return retractPolicy
+}
+
+func normAnswers(ans [][]ref.Term, norm string) []string {
+	out := make([]string, 0, len(ans))
+	for _, a := range ans {
+		vals := make([]ref.Term, len(a))
+		for i, t := range a {
+			vals[i] = normTerm(t, norm)
+		}
+		out = append(out, ref.CanonAnswer(vals))
+	}
+	return out
+}
+
+func normTerm(t ref.Term, norm string) ref.Term {
+	t = ref.Deref(t)
+	c, ok := t.(*ref.Cmp)
+	if !ok {
+		return t
+	}
+	if norm == "callvar" && c.F == "call" && len(c.Args) == 1 {
+		if v, ok := ref.Deref(c.Args[0]).(*ref.Var); ok {
+			return v
+		}
+	}
+	args := make([]ref.Term, len(c.Args))
+	for i, a := range c.Args {
+		args[i] = normTerm(a, norm)
+	}
+	return &ref.Cmp{F: c.F, Args: args}
 }
